@@ -96,6 +96,7 @@ path = "{VERIF / 'rust' / 'simhost' / 'src' / 'main.rs'}"
 [dependencies]
 sc62015-core = {{ path = "../coreshadow" }}
 serde_json = "1.0"
+crc32fast = "1"
 
 [profile.release]
 opt-level = 2
